@@ -144,6 +144,10 @@ def apply_call(g, call):
     """Execute one call descriptor on builder g (plain getattr dispatch).
     'trace.<shape>' ops go to g.trace; 'transform.<op>' to g.transform."""
     op = call["op"]
+    if op == "other_builder":
+        from vf.statehist import other_builder_activity
+        other_builder_activity(call.get("cfg"))
+        return None
     args = list(call.get("args", ()))
     kw = dict(call.get("kw", {}))
     target = g
